@@ -1,5 +1,5 @@
 (** * C09 — operators derived from a user impl forward to it faithfully *)
-From DX Require Import Syntax Tables GenBound GenAttrs IR GenImpl SemImpl.
+From DX Require Import Syntax Tables GenBound GenAttrs IR GenImpl SemImpl LemSelf.
 
 (** what [build_by_item_impl] generates, once its inputs are in normal form *)
 Definition bin_forms (g : generics) (op : binop) (this rhs output : ty) (tr rr : bool) : list op_ir :=
@@ -95,9 +95,42 @@ Theorem C09_assign_from_op :
     meaning (OpAssignFromBin g op this rhs cl) = MAssignFromOp cl (if cl then PAsIs else PClone).
 Proof. intros g op this rhs []; reflexivity. Qed.
 
+(** ** "the user's generics and where-clause (including uses of `Self`) carry over"
+
+    Every derived impl carries [expand_self_generics (i_self i) (i_generics i)] (first two theorems).  rustc refuses a
+    reference without a lifetime inside a bound or a where-predicate (E0637).  The expansion never creates one out of
+    nothing: if neither the user's self type nor the user's generics contain one, the generics of the derived impls
+    do not either; and generics that do not mention `Self` are carried over unchanged, whatever the self type is. *)
+Theorem C09_self_expansion_well_formed :
+  forall i, elided_ty (i_self i) = false -> elided_generics (i_generics i) = false ->
+            elided_generics (expand_self_generics (i_self i) (i_generics i)) = false.
+Proof. intros i H1 H2. apply expand_self_generics_no_elide; assumption. Qed.
+
+Theorem C09_generics_without_Self_carry_over :
+  forall i, mentions_self_generics (i_generics i) = false ->
+            expand_self_generics (i_self i) (i_generics i) = i_generics i.
+Proof. intros i H. apply expand_self_generics_id, H. Qed.
+
+(** ... and the KNOWN FINDING (known_findings.json, DESIGN.md §4): outside that class the carried-over generics can be
+    ill-formed although the user's own impl is fine - `impl<T: Clone + Wt<Self>> Add for &G<T>`: *)
+Theorem C09_self_expansion_ref_refuted :
+  exists this g,
+    elided_generics g = false /\ mentions_self_generics g = true /\ elided_ty this = true /\
+    elided_generics (expand_self_generics this g) = true.
+Proof.
+  exists (TyRef None false (TyPath None false [Seg "G" (SAAngle [GTy (ident_ty "T")])])).
+  exists {| g_params := [GPTy "T" [TBTrait false false [Seg "Clone" SANone];
+                                   TBTrait false false [Seg "Wt" (SAAngle [GTy self_ty_kw])]] None];
+            g_where := [] |}.
+  vm_compute. repeat split.
+Qed.
+
 Print Assumptions C09_generated_from_op.
 Print Assumptions C09_generated_from_assign.
 Print Assumptions C09_forwarding.
 Print Assumptions C09_three_forms.
 Print Assumptions C09_clone_exactly_when_needed.
 Print Assumptions C09_assign_from_op.
+Print Assumptions C09_self_expansion_well_formed.
+Print Assumptions C09_generics_without_Self_carry_over.
+Print Assumptions C09_self_expansion_ref_refuted.
